@@ -424,9 +424,17 @@ class SDT(LDT):
             out, off = [], 0
             for x in v:
                 if isinstance(x, Star):
-                    if len(x.items) != 1 or isinstance(x.items[0], Star):
+                    if len(x.items) != 1:
                         return None
                     it = x.items[0]
+                    if isinstance(it, Star):
+                        # a segment of segments (nested comprehension): iteration runs over the inner generic element
+                        sub = self.phases([it], order)
+                        if sub is None or len(sub) != 1 or sub[0][0] != "star":
+                            return None
+                        out.append(sub[0][:6] + (Sym("?index"), tuple(x.cond) + tuple(sub[0][7])))
+                        off = Sym("?index")
+                        continue
                     if isinstance(it, Spl):
                         sub = self.phases(it.term, order)
                         if sub is None or len(sub) != 1 or sub[0][0] != "star":
@@ -950,7 +958,7 @@ class SDT(LDT):
                             self._modvals[key] = c0
                             return c0
                 if r and r[0] == "value" and isinstance(r[1][1], (ast.Dict, ast.List, ast.Tuple, ast.Set, ast.Lambda)) \
-                        and any(isinstance(x, ast.Lambda) for x in ast.walk(r[1][1])):
+                        and any(isinstance(x, ast.Lambda) or (isinstance(x, ast.Name) and (self.pm.resolve(r[1][0].name, x.id) or ("",))[0] == "func") for x in ast.walk(r[1][1])):
                     mi, expr = r[1]
                     if not self._mutated_global(mi.name, n.id):
                         scope = _ModScope(mi.name)
@@ -1065,6 +1073,14 @@ class SDT(LDT):
                 if m == "pop" and args == [0]:
                     self._rebind(env, base, SliceSym(f"{base.path}[1:]", None, base, 1, None))
                     return SubSym(f"{base.path}[0]", None, base, 0)
+                if m == "append" and len(args) == 1 and not isinstance(base, Init):
+                    self._rebind(env, base, [Spl(base), args[0]])           # the sequence followed by one more item
+                    return None
+                if m == "extend" and len(args) == 1 and not isinstance(base, Init):
+                    new = [Spl(base)]
+                    self._extend(new, args[0], n)
+                    self._rebind(env, base, new)
+                    return None
                 self._rebind(env, base, Sym(f"?mutated:{base.path[:60]}.{m}(…)"))
                 return Sym(f"?{base.path[:40]}.{m}(…)")
             return NOC
@@ -1417,6 +1433,8 @@ class SDT(LDT):
             fv = self.ev(f, env)
             if isinstance(fv, tuple) and len(fv) == 3 and fv[0] == "closure":
                 return self.call_closure(fv, [self.ev(a, env) for a in n.args], n, env)
+            if isinstance(fv, tuple) and len(fv) == 2 and fv[0] == "func":
+                return self.invoke(fv[1], None, [self.ev(a, env) for a in n.args], n, env, {k.arg: self.ev(k.value, env) for k in n.keywords if k.arg})
             args, kw = self._args(n, env)
             return CallSym(f"{show(fv)[:60]}({', '.join(show(a)[:60] for a in args)})", None, fv if isinstance(fv, Sym) else None, "()", args, tuple(sorted(kw.items(), key=lambda x: x[0])))
         if isinstance(f, ast.Name) and f.id not in env:
